@@ -1617,6 +1617,176 @@ fn real_thread_overlap(dir: &str, a: &[Record], b: &[Record], rounds: usize, sin
     (rounds, torn)
 }
 
+
+// ------------------------------------------------------------------------------------------------
+// harper-ls SESSION HISTORIES through the in-process Backend: which handler writes what, when (Model/C19Session.v)
+// ------------------------------------------------------------------------------------------------
+/// the handlers of the session model, by index (= C19Session.handler_names)
+const LS_HANDLERS: [&str; 6] = ["did_open", "did_change", "did_save", "did_close", "did_change_configuration", "shutdown"];
+/// One history = several server processes, one after the other, on the same statsPath.  A session is a list of ops
+/// {"op":"open"|"change"|"save"|"close"|"config"|"record", "doc":i, "text":.., "pick":n, "extra":{..}}; every session ends
+/// with the `shutdown` request.  Oracle (the property, through the front end): after every shutdown Stats::read(log) = the
+/// lints applied so far, in order, each exactly ONCE, and summarize counts them once.
+fn check_ls_history(rep: &mut Report, sessions: &[Vec<Value>], dir: &str, origin: &str) {
+    use lsclient::*;
+    use lsx::tower_lsp::LanguageServer;
+    rep.eval();
+    let inp = json!({"kind": "ls_history", "sessions": sessions, "origin": origin});
+    let root = format!("{dir}/lsh");
+    let _ = std::fs::remove_dir_all(&root);
+    let _ = std::fs::create_dir_all(format!("{root}/docs"));
+    let stats_path = format!("{root}/data/stats.txt");
+    let st = settings(&format!("{root}/dict.txt"), &format!("{root}/fd"), &stats_path, json!({}));
+    let rt = runtime();
+    let _g = rt.enter();
+    let mut accepted: Vec<RecordKind> = vec![]; // every lint applied (HarperRecordLint accepted), in order, over all sessions
+    let mut case = String::from("H");
+    let mut saves_with_records = 0;
+    for (si, ops) in sessions.iter().enumerate() {
+        let mut s = Session::new(st.clone());
+        let mut texts: BTreeMap<u64, String> = BTreeMap::new();
+        let mut in_session = 0;
+        case.push_str(if si == 0 { " " } else { "|n|" });
+        let mut evs: Vec<String> = vec![];
+        for op in ops {
+            let di = op["doc"].as_u64().unwrap_or(0) % 3;
+            let path = format!("{root}/docs/s{si}d{di}.txt");
+            let uri = format!("file://{path}");
+            let ok = match op["op"].as_str().unwrap_or("") {
+                "open" => {
+                    let text = op["text"].as_str().unwrap_or("").to_string();
+                    let _ = std::fs::write(&path, &text);
+                    texts.insert(di, text.clone());
+                    evs.push("h0".into());
+                    s.did_open(&uri, "plaintext", &text)
+                }
+                "change" if texts.contains_key(&di) => {
+                    let text = op["text"].as_str().unwrap_or("").to_string();
+                    texts.insert(di, text.clone());
+                    evs.push("h1".into());
+                    s.did_change(&uri, &text)
+                }
+                "save" if texts.contains_key(&di) => {
+                    let _ = std::fs::write(&path, &texts[&di]);
+                    evs.push("h2".into());
+                    if in_session > 0 {
+                        saves_with_records += 1;
+                    }
+                    s.did_save(&uri)
+                }
+                "close" if texts.contains_key(&di) => {
+                    texts.remove(&di);
+                    evs.push("h3".into());
+                    s.did_close(&uri)
+                }
+                "config" => {
+                    let stx = settings(&format!("{root}/dict.txt"), &format!("{root}/fd"), &stats_path, op["extra"].clone());
+                    evs.push("h4".into());
+                    s.notify("workspace/didChangeConfiguration", json!({"settings": stx}))
+                }
+                "record" if texts.contains_key(&di) => {
+                    let text = texts[&di].clone();
+                    let n16 = text.encode_utf16().count();
+                    let p = op["pick"].as_u64().unwrap_or(0) as usize;
+                    // the first position at or after the pick (cyclically) that offers a HarperRecordLint action
+                    let mut arg: Option<String> = None;
+                    for off in 0..n16.min(40) {
+                        let col = ((p + off * 3) % n16.max(1)) as u32;
+                        let Ok(params) = serde_json::from_value::<lsx::tower_lsp::lsp_types::CodeActionParams>(json!({
+                            "textDocument": {"uri": uri}, "range": {"start": {"line": 0, "character": col}, "end": {"line": 0, "character": col}},
+                            "context": {"diagnostics": []}})) else { continue };
+                        let Ok(Ok(Some(acts))) = guarded(|| rt.block_on(s.backend().code_action(params))) else { continue };
+                        let v = serde_json::to_value(&acts).unwrap_or(Value::Null);
+                        arg = v.as_array().and_then(|a| a.iter().find_map(|x| if x["command"]["command"] == "HarperRecordLint" { x["command"]["arguments"][0].as_str().map(|s| s.to_string()) } else { None }));
+                        if arg.is_some() {
+                            break;
+                        }
+                    }
+                    match arg.as_ref().and_then(|a| serde_json::from_str::<RecordKind>(a).ok().map(|k| (a.clone(), k))) {
+                        Some((a, k)) => {
+                            evs.push(format!("r{}", accepted.len()));
+                            accepted.push(k);
+                            in_session += 1;
+                            s.command("HarperRecordLint", vec![json!(a)])
+                        }
+                        None => true,
+                    }
+                }
+                _ => true,
+            };
+            if !ok {
+                rep.fail("ls_stuck", format!("a handler did not complete in session {si}: {op}"), inp.clone());
+                return;
+            }
+        }
+        case.push_str(&evs.join(" "));
+        {
+            use lsx::tower::Service;
+            let req = lsx::tower_lsp::jsonrpc::Request::build("shutdown").id(2_000_000 + si as i64).finish();
+            let fut = s.service.call(req);
+            if !s.drive(Box::pin(async move { fut.await.ok().flatten() })) {
+                rep.fail("ls_stuck", "shutdown did not complete".into(), inp.clone());
+                return;
+            }
+        }
+        drop(s);
+        let bytes = std::fs::read(&stats_path).unwrap_or_default();
+        let Ok(stt) = Stats::read(&mut &bytes[..]) else {
+            rep.fail("ls_history", format!("the log written by harper-ls does not read back after session {si}"), inp.clone());
+            return;
+        };
+        let got = kinds_of(&stt.records);
+        let mut seen: BTreeMap<String, usize> = BTreeMap::new();
+        for r in &stt.records {
+            *seen.entry(serde_json::to_string(&r.uuid).unwrap_or_default()).or_insert(0) += 1;
+        }
+        let repeated = seen.values().filter(|c| **c > 1).count();
+        let lints = accepted.iter().filter(|k| matches!(k, RecordKind::Lint { .. })).count();
+        let total = stt.summarize().total_applied as usize;
+        if got != accepted || repeated > 0 || total != lints {
+            rep.fail("ls_history", format!("after the shutdown of session {si} the log holds {} records for {} applied lints ({} of them written more than once); summarize counts {} applied lints: the log of a session history is not the list of the lints applied, each once", got.len(), accepted.len(), repeated, total), inp.clone());
+            return;
+        }
+    }
+    // H: the session model (which handler appends the in-memory records) predicts which record is written how often
+    let bytes = std::fs::read(&stats_path).unwrap_or_default();
+    let impl_line = match Stats::read(&mut &bytes[..]) {
+        Ok(stt) => {
+            let mut ids: BTreeMap<String, usize> = BTreeMap::new();
+            stt.records.iter().map(|r| { let n = ids.len(); ids.entry(serde_json::to_string(&r.uuid).unwrap_or_default()).or_insert(n).to_string() }).collect::<Vec<_>>().join(" ")
+        }
+        Err(_) => "ERR".into(),
+    };
+    rep.case(case.trim_end(), impl_line.trim_end());
+    rep.monitor("ls_history: after the last shutdown the log is the list of applied lints, each once", 1);
+    rep.count(&format!("ls_history:sessions={} records={} saves_after_a_record={}", sessions.len(), bucket(accepted.len()), bucket(saves_with_records)));
+    if accepted.len() >= 2 {
+        rep.nontrivial(&format!("{:?}", inp));
+    }
+    let _ = std::fs::remove_dir_all(&root);
+}
+fn gen_ls_history(r: &mut Rng) -> Vec<Vec<Value>> {
+    let ns = r.range(1, 3);
+    (0..ns).map(|_| {
+        let mut ops = vec![json!({"op": "open", "doc": 0, "text": gen_line_text(r)})];
+        if r.chance(1, 3) {
+            ops.push(json!({"op": "open", "doc": 1, "text": gen_line_text(r)}));
+        }
+        for _ in 0..r.range(2, 9) {
+            let doc = r.below(2);
+            ops.push(match r.below(10) {
+                0..=3 => json!({"op": "record", "doc": doc, "pick": r.below(200)}),
+                4 | 5 => json!({"op": "save", "doc": doc}),
+                6 => json!({"op": "change", "doc": doc, "text": gen_line_text(r)}),
+                7 => json!({"op": "close", "doc": doc}),
+                8 => json!({"op": "open", "doc": doc, "text": gen_line_text(r)}),
+                _ => json!({"op": "config", "extra": if r.chance(1, 2) { json!({"diagnosticSeverity": "warning"}) } else { json!({"linters": {"SpellCheck": r.chance(1, 2)}}) }}),
+            });
+        }
+        ops
+    }).collect()
+}
+
 fn replay_input(rep: &mut Report, lc: &mut LogChecker, cx: &mut Ctx, v: &Value, dir: &str) {
     match v["kind"].as_str().unwrap_or("") {
         "str" => {
@@ -1662,6 +1832,10 @@ fn replay_input(rep: &mut Report, lc: &mut LogChecker, cx: &mut Ctx, v: &Value, 
             let texts: Vec<Vec<String>> = serde_json::from_value(v["texts"].clone()).unwrap_or_default();
             let picks: Vec<usize> = serde_json::from_value(v["picks"].clone()).unwrap_or_default();
             check_ls_sessions(rep, &texts, &picks, dir, "replay");
+        }
+        "ls_history" => {
+            let sessions: Vec<Vec<Value>> = serde_json::from_value(v["sessions"].clone()).unwrap_or_default();
+            check_ls_history(rep, &sessions, dir, "replay");
         }
         "wasm" => {
             let texts: Vec<Vec<String>> = serde_json::from_value(v["texts"].clone()).unwrap_or_default();
@@ -1845,6 +2019,11 @@ fn run(a: &Args, corpus: &[Value]) {
         let texts: Vec<Vec<String>> = (0..ns).map(|_| (0..r.range(1, 2)).map(|_| gen_line_text(&mut r)).collect()).collect();
         let picks: Vec<usize> = (0..r.range(2, 5)).map(|_| r.below(200)).collect();
         check_ls_sessions(&mut rep, &texts, &picks, &dir, "random");
+    }
+    // session histories: record / didSave / didChange / didClose / configuration / shutdown / restart on the same statsPath
+    for _ in 0..a.scale(40, 300) {
+        let h = gen_ls_history(&mut r);
+        check_ls_history(&mut rep, &h, &dir, "random");
     }
     for _ in 0..a.scale(8, 60) {
         let texts: Vec<Vec<String>> = (0..r.range(2, 3)).map(|_| (0..r.range(1, 2)).map(|_| gen_line_text(&mut r)).collect()).collect();
